@@ -275,9 +275,20 @@ func (e *pnftEnv) monC12(denoms []string, owners []string) {
 			if err != nil {
 				continue
 			}
+			cnt := map[string]int{}
 			for _, d := range r.Denoms {
 				if d.Owner != o {
 					return "fail #denomsByOwner-foreign"
+				}
+				cnt[d.Id]++
+			}
+			for _, d := range denoms {
+				one, err := k.Denom(g, &pnfttypes.QueryDenomRequest{Id: d})
+				if err != nil || one.Denom == nil {
+					continue
+				}
+				if one.Denom.Owner == o && cnt[d] != 1 {
+					return fmt.Sprintf("fail #denomsByOwner-misses-or-repeats %s (%d times)", hxs(d), cnt[d])
 				}
 			}
 		}
@@ -464,5 +475,21 @@ func init() {
 		for h := 0; h < n; h++ {
 			pnftHistory(e, rng, p, 25+rng.Intn(40))
 		}
+		// more classes than one default page of the SDK's paginated listings (100): every listing that is built
+		// on a paginated call without following next_key silently stops there
+		e.reset()
+		e.now(1700000000000000000)
+		var many []string
+		for i := 0; i < 104; i++ {
+			id := fmt.Sprintf("m%03d", i)
+			many = append(many, id)
+			e.msg(&pnfttypes.MsgCreateDenomRequest{Id: id, Name: "n", Symbol: "s", Creator: p.addrs[i%2]})
+		}
+		e.msg(&pnfttypes.MsgMintPNFTRequest{DenomId: "m103", Id: "1", Name: "t", Creator: p.addrs[1]})
+		e.msg(&pnfttypes.MsgTransferDenomRequest{Id: "m102", Sender: p.addrs[0], Receiver: p.addrs[2]})
+		for _, a := range p.addrs {
+			e.qDenomsByOwner(a)
+		}
+		e.monC12(many[98:], p.addrs)
 	}
 }
